@@ -157,3 +157,15 @@ pub fn set_quarantine(on: bool) {
 pub fn quarantine() -> bool {
     QUARANTINE.load(Ordering::Relaxed)
 }
+
+static LAST_ERROR_ADDR: AtomicU64 = AtomicU64::new(u64::MAX);
+
+/// called by the interpreter with the bytecode address it attributes a runtime error to
+pub fn record_error_addr(addr: u64) {
+    LAST_ERROR_ADDR.store(addr, Ordering::Relaxed);
+}
+
+/// the address the most recent runtime error was attributed to (u64::MAX: none yet)
+pub fn last_error_addr() -> u64 {
+    LAST_ERROR_ADDR.load(Ordering::Relaxed)
+}
